@@ -132,7 +132,7 @@ theorem offinv_runCb (s : Stack) (cb : Cb) (hi : OffInv s) : OffInv (s.runCb cb)
         split
         · exact hi
         · rename_i hnd
-          have e1 := opi_cancelTimer s isSleep t.sleep
+          have e1 := opi_cancelTimer s (isSleepFor (.offer i, n)) t.sleep
           exact offinv_stepOffer _ i n t _ (offinv_frame e1 hi) ((otask_of_opi e1 i n).trans ht) rfl rfl hnd
     | find =>
       simp only [runCb]
